@@ -205,7 +205,8 @@ def inj(text):
 # --------------------------------------------------------------------------
 # injection
 # --------------------------------------------------------------------------
-def inject(src, fnspecs, fname, warnings):
+def inject(src, fnspecs, fname, warnings, taint=None, modname=''):
+    taint = taint if taint is not None else set()
     m = rsx.mask(src)
     fns = rsx.parse_items(src, m)
     by_path = {}
@@ -256,6 +257,7 @@ def inject(src, fnspecs, fname, warnings):
                 if hit:
                     # this part speaks about ghost variables that were never declared (their hint lost its anchor): skip it too
                     warnings.append('part %s %s of %s uses ghost variable(s) %s of a skipped hint: skipped' % (kind, arg, sp.path, ','.join(sorted(hit))))
+                    taint.add(modname + '::' + sp.path.split('#')[0])
                     lost_names.update(re.findall(r'let ghost (?:mut )?(\w+)', text))
                     continue
             if kind == 'ret':
@@ -263,6 +265,7 @@ def inject(src, fnspecs, fname, warnings):
                 arrow = _find_arrow(m, f)
                 if arrow is None:
                     warnings.append('spec %s: %s has no return type: ret part skipped' % (sp.src, sp.path))
+                    taint.add(modname + '::' + sp.path.split('#')[0])
                     continue
                 a, b = arrow
                 edits.append((a, a, inj('(%s: ' % arg)))
@@ -279,6 +282,7 @@ def inject(src, fnspecs, fname, warnings):
                 k = int(arg)
                 if k < 1 or k > len(f.loops):
                     warnings.append('spec %s: %s has %d loops, wanted #%d: part skipped' % (sp.src, sp.path, len(f.loops), k))
+                    taint.add(modname + '::' + sp.path.split('#')[0])
                     continue
                 kw, bo, bc = f.loops[k - 1]
                 pos = {'loop': bo, 'loop_body_start': bo + 1, 'loop_end': bc, 'after_loop': bc + 1}[kind]
@@ -287,11 +291,13 @@ def inject(src, fnspecs, fname, warnings):
                 k = int(arg)
                 if k < 1 or k > len(f.loops):
                     warnings.append('spec %s: %s has %d loops, wanted #%d: part skipped' % (sp.src, sp.path, len(f.loops), k))
+                    taint.add(modname + '::' + sp.path.split('#')[0])
                     continue
                 kw, bo, bc = f.loops[k - 1]
                 mm2 = re.compile(r'\bin\s+').search(m, kw, bo)
                 if not mm2 or not m.startswith('for', kw):
                     warnings.append('spec %s: loop #%d of %s is not a for loop: part skipped' % (sp.src, k, sp.path))
+                    taint.add(modname + '::' + sp.path.split('#')[0])
                     continue
                 edits.append((mm2.end(), mm2.end(), inj(text.strip() + ': ')))
             elif kind in ('hint_before', 'hint_after'):
@@ -312,6 +318,7 @@ def inject(src, fnspecs, fname, warnings):
                     off += len(line) + 1
                 if found is None:
                     warnings.append('hint anchor %r (#%d) of %s not found: hint skipped' % (mm2.group(1), nth, sp.path))
+                    taint.add(modname + '::' + sp.path.split('#')[0])
                     lost_names.update(re.findall(r'let ghost (?:mut )?(\w+)', text))
                     continue
                 pos = found[0] if kind == 'hint_before' else found[1]
@@ -328,6 +335,7 @@ def inject(src, fnspecs, fname, warnings):
                 nth = int(mm2.group(2) or 1)
                 if len(ms) < nth:
                     warnings.append('spec %s: replace anchor %r of %s not found: part skipped' % (sp.src, mm2.group(1), sp.path))
+                    taint.add(modname + '::' + sp.path.split('#')[0])
                     continue
                 g = ms[nth - 1]
                 edits.append((f.item_start + g.start(), f.item_start + g.end(), inj('/*R:%s*/' % g.group(0).replace('*/', '* /')) + g.expand(text.strip('\n'))))
@@ -397,6 +405,7 @@ def build(repo_src, only=None):
     """Returns dict(text=..., warnings=[...], rewrites=[...], uncontracted={mod:[...]}, sources={mod:path})."""
     cfg = load_modules()
     warnings, rewrites_log, uncontracted, sources = [], [], {}, {}
+    taint = set()
     parts = []
     parts.append(open(os.path.join(SPECS, 'prelude.rs')).read())
     ghost = open(os.path.join(SPECS, 'ghost.rs')).read()
@@ -415,7 +424,7 @@ def build(repo_src, only=None):
         src, log = apply_rewrites(src, md.get('rewrites', []), md['file'], warnings)
         rewrites_log += [(md['file'],) + x for x in log]
         fnspecs, extra = parse_spec_file(os.path.join(SPECS, 'contracts', md['name'].replace('::', '_') + '.spec'))
-        src, unc = inject(src, fnspecs, md['file'], warnings)
+        src, unc = inject(src, fnspecs, md['file'], warnings, taint, md['name'])
         uncontracted[md['name']] = unc
         tree[md['name']] = (md, src, extra)
     # nest modules: names like reader::range_iter go inside reader
@@ -433,7 +442,7 @@ def build(repo_src, only=None):
             body += render(name)
     root = open(os.path.join(SPECS, 'root.rs')).read()
     text = '\n'.join(parts) + '\nverus! {\n' + root + '\n' + body + '\n} // verus!\nfn main() {}\n'
-    return dict(text=text, warnings=warnings, rewrites=rewrites_log, uncontracted=uncontracted, sources=sources)
+    return dict(text=text, warnings=warnings, rewrites=rewrites_log, uncontracted=uncontracted, sources=sources, taint=sorted(taint))
 
 
 def source_hash(repo_src):
